@@ -544,7 +544,7 @@ func (v *audioPackager) Encode(frame *AudioFrame) (tag []byte, err error) {
 func (v *audioPackager) Decode(tag []byte) (frame *AudioFrame, err error) {
 	// Refer to @doc video_file_format_spec_v10.pdf, @page 76, @section E.4.2 Audio Tags
 	// @see SrsFormat::audio_aac_demux
-	if len(tag) < 2 {
+	if len(tag) < 1 {
 		err = errDataNotEnough
 		return
 	}
@@ -555,6 +555,11 @@ func (v *audioPackager) Decode(tag []byte) (frame *AudioFrame, err error) {
 	frame.SoundRate = AudioSamplingRate(uint8(t>>2) & 0x03)
 	frame.SoundSize = AudioSampleBits(uint8(t>>1) & 0x01)
 	frame.SoundType = AudioChannels(t & 0x01)
+
+	// Only AAC and Opus carry a trait byte after the audio tag header.
+	if (frame.SoundFormat == AudioCodecAAC || frame.SoundFormat == AudioCodecOpus) && len(tag) < 2 {
+		return nil, errDataNotEnough
+	}
 
 	if frame.SoundFormat == AudioCodecAAC {
 		frame.Trait = AudioFrameTrait(tag[1])
@@ -712,7 +717,7 @@ func NewVideoPackager() (VideoPackager, error) {
 }
 
 func (v *videoPackager) Decode(tag []byte) (frame *VideoFrame, err error) {
-	if len(tag) < 5 {
+	if len(tag) < 1 {
 		err = errDataNotEnough
 		return
 	}
@@ -723,6 +728,11 @@ func (v *videoPackager) Decode(tag []byte) (frame *VideoFrame, err error) {
 	frame.CodecID = VideoCodec(byte(p[0]) & 0x0f)
 
 	if frame.CodecID == VideoCodecAVC || frame.CodecID == VideoCodecHEVC {
+		// Only AVC and HEVC carry the packet type and composition time.
+		if len(tag) < 5 {
+			return nil, errDataNotEnough
+		}
+
 		frame.Trait = VideoFrameTrait(p[1])
 		frame.CTS = int32(uint32(p[2])<<16 | uint32(p[3])<<8 | uint32(p[4]))
 		frame.Raw = tag[5:]
